@@ -10,8 +10,8 @@ META = {
     "technique": "boundary-recorded call/return history of Barrier::wait checked against arrival counting: the k-th group of a barrier of size n is "
                  "arrivals (k-1)n+1..kn in request order, a wait may return only once its group is complete, complete groups are released entirely",
     "level_text": "2-6 actors run generated scripts (wait on one of 1-2 barriers of size 1-6, sleeps of 1-3 time units of 2^-10 s so that arrivals "
-                  "collide at the same date and in the same scheduling round, yields); barriers are reused for several rounds, with more or fewer "
-                  "actors than the barrier size. Calls are logged before the call and after the return; the kernel is sequential, so the order of "
+                  "collide at the same date and in the same scheduling round, yields; in a separate family also Actor::kill of an actor that "
+                  "is blocked in wait); barriers are reused for several rounds, with more or fewer actors than the barrier size. Calls are logged before the call and after the return; the kernel is sequential, so the order of "
                   "the request lines is the arrival order seen by the kernel. Every return is checked: the arrival's group (by arrival index) must be "
                   "complete at that point of the history and not before the date of its last arrival; at the end every member of a complete group "
                   "must have returned, and the only blocked actors are the members of a trailing incomplete group.",
@@ -27,7 +27,7 @@ META = {
                   "(one probe, then masked).",
     "rule": "case = one scenario (barrier sizes + per-actor scripts); non-trivial = distinct scenarios, fully checked, in which >=1 wait had to block "
             "and >=1 group of size >=2 was released",
-    "ready": False,
+    "ready": True,
 }
 
 DIRECTED = [
